@@ -107,7 +107,8 @@ def run(rep: Report, ctx: Any) -> str:
     it, ji = ctx.flow
     n_v = 0
     for e in ji.emissions.values():
-        if e.template in ("str_enum.py.jinja", "int_enum.py.jinja") and re.search(r"\bvalue\b", e.expr) or \
+        # the member value: second component of the loop over enum.values (canonical loop variable `ITER[*].1`)
+        if e.template in ("str_enum.py.jinja", "int_enum.py.jinja") and re.search(r"enum\.values[^ ]*?\[\*\]\.1\b", e.expr) or \
                 (e.template == "literal_enum.py.jinja" and "format" in e.expr):
             n_v += 1
             dbl = {l for l in e.labels if l.startswith("REPR_OF_ESC")}
